@@ -132,6 +132,7 @@ class Engine:
         self.model = RxModel()
         self.dead = False
         self.dead_tainted = False
+        self.ack_overflow_taint = False
         self.sticky_taint = None
         self.taint = None                 # None | "midcmd" | "race"   (C38)
 
@@ -198,6 +199,9 @@ class Engine:
         if symptom in ("source_changed_under_backpressure", "source_word_not_lcstart", "malformed_link_command",
                        "unexpected_link_command"):
             pass                              # malformed output can never be explained by a lost / inconsistent restart
+        elif self.ack_overflow_taint and symptom in ("lgood_missing", "lgood_without_accepted_header", "lgood_wrong_sequence",
+                                                     "lbad_overtakes_lgood", "advert_lgood_wrong_sequence"):
+            mech = "ack_counter_overflow_buffer_count_below_4"
         elif self.taint == "midcmd":
             mech = "restart_lost_trigger_during_link_command"
         elif self.taint == "race":
@@ -486,6 +490,10 @@ class Engine:
                 res.unjudged += 1
             if len(m.lgood_due) >= 2:
                 res.bin("ack_backlog_ge2")
+            if self.nbuf < 4 and len(m.lgood_due) >= (1 << self.nbuf.bit_length()):
+                # more unacknowledged accepted headers than a counter declared as range(buffer_count + 1) can hold
+                self.ack_overflow_taint = True
+                res.bin("ack_backlog_exceeds_small_buffer_counter")
             self.accept_window = range(cyc + 1, cyc + 5)
         res.bin("hdr_" + kind)
         res.event("headers_judged")
